@@ -176,8 +176,15 @@ def gen_history(rng, k):
     peaks = []
     for _ in range(ncalls):
         n = int(rng.integers(1, 10))
-        pk = np.stack([rng.integers(-c, shape[0] + c, n), rng.integers(-c, shape[1] + c, n)], axis=1)
+        pk = np.stack([rng.integers(-2 * c, shape[0] + 2 * c + 1, n),
+                       rng.integers(-2 * c, shape[1] + 2 * c + 1, n)], axis=1)
         pk[0] = (int(rng.integers(-c, 1)), int(rng.integers(shape[1] - 2, shape[1] + c)))  # a border peak
+        if n > 1:  # a window entirely outside, on a random side
+            side = int(rng.integers(4))
+            pk[1] = [(int(rng.integers(0, shape[0])), shape[1] + c + int(rng.integers(0, c))),
+                     (int(rng.integers(0, shape[0])), -c - int(rng.integers(0, c))),
+                     (shape[0] + c + int(rng.integers(0, c)), int(rng.integers(0, shape[1]))),
+                     (-c - int(rng.integers(0, c)), int(rng.integers(0, shape[1])))][side]
         peaks.append(pk.tolist())
     kinds = ("poisson", "gauss", "disks", "const", "hot")
     return {"seed": int(rng.integers(1 << 30)), "pattern": pat, "shape": list(shape),
